@@ -11,7 +11,8 @@ import PMV.Proofs.PyCoreMono
   the statement-level default transforms that are meant to be behaviour-neutral — remove_pass,
   remove_literal_statements (with its `__doc__` guard), remove_explicit_return_none,
   remove_exception_brackets, remove_object_base — and any pipeline of them leave the observable
-  unchanged; constant folding (for any oracle) and positional-only conversion *refine* it: unless the
+  unchanged; under `python -O` semantics (`runO`) remove_asserts and remove_debug leave it unchanged;
+  constant folding (for any oracle) and positional-only conversion *refine* it: unless the
   original run leaves the core (`stuck`), the transformed module behaves identically.
   Partial: renaming, hoisting, import combining and annotation removal are decided by the
   differential-execution oracle on the real code and by the per-transform theorems of
@@ -22,14 +23,14 @@ open PMV PMV.Transforms PMV.PyCore PMV.Minify
 
 /-- T01.1 -/
 theorem remove_pass_preserves (n : Nat) (m : Module) : run n (travModule removePass m) = run n m :=
-  run_trav (dropT isPass) (dropT_sound isPass isPass_noop) (dropT_table isPass isPass_noop) n m
+  run_trav (dropT isPass) (dropT_sound isPass isPass_noop) (dropT_table (o := false) isPass isPass_noop) n m
 
 /-- T01.2 (including the guard that leaves the module alone when it mentions `__doc__`) -/
 theorem remove_literals_preserves (n : Nat) (m : Module) : run n (removeLiteralStatements m) = run n m := by
   unfold removeLiteralStatements
   split
   · rfl
-  · exact run_trav (dropT isLiteralStmt) (dropT_sound _ isLiteral_noop) (dropT_table _ isLiteral_noop) n m
+  · exact run_trav (dropT isLiteralStmt) (dropT_sound _ isLiteral_noop) (dropT_table (o := false) _ isLiteral_noop) n m
 
 /-- T01.3 -/
 theorem return_none_preserves (n : Nat) (m : Module) : run n (travModule removeReturnNone m) = run n m :=
@@ -56,6 +57,16 @@ theorem constant_folding_preserves (t : Printer.PrecTable) (sp : Token.Spacing) 
 theorem convert_posargs_preserves (n : Nat) (m : Module) (hcore : (run n m).ending ≠ "stuck") :
     run n (removePosargs m) = run n m :=
   run_removePosargs n m hcore
+
+/-- T01.10 (the `-O` clause of C05, as behaviour): under `python -O` semantics (`runO`: `__debug__` tests are False,
+    `assert` statements are not executed) remove_asserts leaves the observable unchanged … -/
+theorem remove_asserts_preserves_under_O (n : Nat) (m : Module) : runO n (travModule removeAsserts m) = runO n m :=
+  runO_trav (dropT isAssert) (dropT_sound isAssert isAssert_noop) (dropT_table (o := true) isAssert isAssert_noop) n m
+
+/-- … and so does remove_debug: the removed `if __debug__:` blocks (the documented spellings, no `else`) do nothing there. -/
+theorem remove_debug_preserves_under_O (n : Nat) (m : Module) : runO n (travModule removeDebug m) = runO n m :=
+  runO_trav (dropT canRemoveDebug) (dropT_sound canRemoveDebug canRemoveDebug_noop)
+    (dropT_table (o := true) canRemoveDebug canRemoveDebug_noop) n m
 
 /-- T01.9: fuel only bounds loop iterations and call depth: a run that ends within fuel `n` (anything but `timeout`)
     is the same at every larger fuel — "for every fuel" above speaks about the program, not about the bound. -/
